@@ -177,7 +177,7 @@ var probes = map[string][2]string{
 	"Object.prototype.valueOf":              {`var o = {}; (o.valueOf() === o) + "|" + typeof Object.prototype.valueOf.call(1)`, "true|object"},
 	"Object.prototype.hasOwnProperty":       {`({a: 1}).hasOwnProperty("a") + "|" + ({}).hasOwnProperty("toString")`, "true|false"},
 	"Object.prototype.isPrototypeOf":        {`var o = {}, c = Object.create(o); Array.prototype.isPrototypeOf([]) + "|" + Array.prototype.isPrototypeOf({}) + "|" + Object.prototype.isPrototypeOf([]) + "|" + o.isPrototypeOf(o) + "|" + o.isPrototypeOf(c) + "|" + c.isPrototypeOf(o) + "|" + Object.prototype.isPrototypeOf(Object.prototype) + "|" + Object.prototype.isPrototypeOf(1)`, "true|false|true|false|true|false|false|false"},
-	"Object.prototype.propertyIsEnumerable": {`[1].propertyIsEnumerable("0") + "|" + [1].propertyIsEnumerable("length") + "|" + ({}).propertyIsEnumerable("toString")`, "true|false|false"},
+	"Object.prototype.propertyIsEnumerable": {`[1].propertyIsEnumerable("0") + "|" + [1].propertyIsEnumerable("length") + "|" + ({}).propertyIsEnumerable("toString") + "|" + Object.create({a: 1}).propertyIsEnumerable("a") + "|" + Object.create([7]).propertyIsEnumerable("0") + "|" + ({a: 1}).propertyIsEnumerable("a")`, "true|false|false|false|false|true"},
 	"Function.prototype.toString":           {`typeof Function.prototype.toString.call(function() {}) + "|" + (function() { try { Function.prototype.toString.call({}); return "no" } catch (e) { return e instanceof TypeError } })()`, "string|true"},
 	"Function.prototype.apply":              {`(function(a, b) { return this.x + a + b }).apply({x: 1}, [2, 3])`, "6"},
 	"Function.prototype.call":               {`(function(a, b) { return this.x + a + b }).call({x: 1}, 2, 3)`, "6"},
